@@ -129,6 +129,9 @@ def _flags(rng, probe_ids, rules):
     if scheme == "minimal" or rng.random() < 0.2:
         flags += ["--return-code-scheme", scheme]
     flags += workload.probe_flags(probe_ids)
+    if rng.random() < 0.12:
+        # informational logging switched on: must not change how failures are contained
+        flags = ["--log-level", "INFO"] + flags
     if rules == "some_disabled":
         flags += ["-d", ",".join(rng.sample(["md009", "md010", "md012", "md013", "md022", "md041", "md047", "md031", "md032"], 3))]
     return flags, coe, scheme
